@@ -197,6 +197,56 @@ def rule_row_memo(repo: Repo, rep: Report, classes: List[ClassInfo]) -> int:
     return n
 
 
+def rule_slot_memo(repo: Repo, rep: Report, classes: List[ClassInfo]) -> int:
+    """Single-slot memo: `if self._m is None or <cond>: self._m = f(self.a, ...)` followed by a read of self._m.
+    The refresh condition must mention every attribute of self the memoised value is computed from; otherwise the
+    value goes stale when such an attribute (a public, reconfigurable parameter) changes."""
+    n = 0
+    for ci in classes:
+        for m, fi in ci.methods.items():
+            if m == "__init__":
+                continue
+            set_parents(fi.node)
+            for iff in [x for x in ast.walk(fi.node) if isinstance(x, ast.If)]:
+                slots = {attr_chain(c.left) for c in ast.walk(iff.test) if isinstance(c, ast.Compare) and len(c.ops) == 1 and isinstance(c.ops[0], ast.Is) and isinstance(c.comparators[0], ast.Constant) and c.comparators[0].value is None and (attr_chain(c.left) or "").startswith("self.")}
+                for slot in slots:
+                    stores = [s_ for s_ in ast.walk(iff) if isinstance(s_, ast.Assign) and any(attr_chain(t) == slot for t in s_.targets) and any(s_ is y for b_ in iff.body for y in ast.walk(b_))]
+                    if not stores:
+                        continue
+                    # attributes the memoised value is computed from (through the locals of the refresh branch)
+                    local_defs: Dict[str, ast.AST] = {}
+                    for s_ in ast.walk(iff):
+                        if isinstance(s_, ast.Assign) and isinstance(s_.targets[0], ast.Name):
+                            local_defs[s_.targets[0].id] = s_.value
+
+                    def deps(e: ast.AST, depth: int = 0) -> Set[str]:
+                        out: Set[str] = set()
+                        for x in ast.walk(e):
+                            if isinstance(x, ast.Attribute):
+                                ch = attr_chain(x)
+                                if ch and ch.startswith("self.") and ch.count(".") == 1:
+                                    out.add(ch)
+                            if isinstance(x, ast.Name) and x.id in local_defs and depth < 4:
+                                out |= deps(local_defs[x.id], depth + 1)
+                        return out
+
+                    needed = set()
+                    for s_ in stores:
+                        needed |= deps(s_.value)
+                    needed -= {slot}
+                    # methods of self are not parameters
+                    needed = {d for d in needed if d.split(".")[1] not in ci.methods and ci.find_method(d.split(".")[1]) is None}
+                    guard = {attr_chain(x) for x in ast.walk(iff.test) if isinstance(x, ast.Attribute) and (attr_chain(x) or "").startswith("self.") and (attr_chain(x) or "").count(".") == 1} - {slot}
+                    missing = sorted(needed - guard)
+                    n += 1
+                    what = f"{ci.name}.{m}: memo `{slot}` refreshed when `{unparse(iff.test)[:90]}`"
+                    if missing:
+                        rep.violation("CACHE-KEY", fi, what, f"the memoised value is computed from {missing}, which the refresh condition does not look at: after such a parameter is changed the stale value keeps being used (the component no longer behaves as configured)", node=stores[0])
+                    else:
+                        rep.ok("CACHE-KEY", fi, what, "every attribute the value depends on takes part in the refresh condition", node=stores[0])
+    return n
+
+
 # ---------------------------------------------------------------------------
 # CACHE-KEY
 # ---------------------------------------------------------------------------
@@ -452,6 +502,7 @@ def run(repo: Repo, rep: Report, tier: str) -> None:
     n += rule_batch_coupled(repo, rep, classes)
     n += rule_batch_numerics(repo, rep, classes)
     n += rule_row_memo(repo, rep, classes)
+    n += rule_slot_memo(repo, rep, classes)
     n += rule_cache_key(repo, rep, classes)
     n += rule_state(repo, rep, classes)
     n += rule_tlist(repo, rep, classes)
